@@ -618,16 +618,35 @@ Proof. destruct a, b; cbn; try discriminate; auto. intros H. apply Z.eqb_eq in H
 Lemma W4_W2 o : W4 o = false -> W2 o = false.
 Proof. unfold W4, W2. destruct (w_commit o), (w_sdlag o); cbn; auto. Qed.
 
+(* clause solver that normalises only the goal: the hypotheses (about the pre-state) are normalised once, before
+   the record is split, by own_tac *)
+Ltac p2_goal :=
+  unfold set_pc; autorewrite with sup;
+  rewrite ?st_upd_vis, ?restarts_upd_vis by reflexivity;
+  cbn; intros;
+  repeat match goal with
+  | H : _ \/ _ |- _ => destruct H
+  | H : exists _, _ |- _ => destruct H
+  | H : _ /\ _ |- _ => destruct H
+  | H : forall c, exited ?x = Some c -> _, H' : exited ?x = Some ?c0 |- _ => specialize (H _ H')
+  | H : ?A -> _, H' : ?A |- _ => specialize (H H')
+  | H : true = true -> _ |- _ => specialize (H eq_refl)
+  end;
+  try discriminate; try congruence; auto;
+  try (split; auto; try lia; try discriminate; fail);
+  try (intuition (try discriminate; try congruence; try lia; eauto); fail).
+
 Ltac own_tac HP H :=
   kind_cases H; split_andb; subst;
   match goal with E : get ?th (thinst ?s) = Some ?i, E0 : get ?i (insts ?s) = Some ?x |- _ =>
     intros j9 x9 xo9 Hx9 Hxo9; unfold set_pc in Hx9; autorewrite with sup in Hx9; cbn [fst snd] in Hx9;
     destruct (N.eqb_spec i j9) as [<-|Hne];
-    [ rewrite E0 in Hx9; cbn in Hx9; injection Hx9 as <-; pose proof (HP _ _ _ E0 Hxo9) as HPx; p2_pre; destruct HPx as [Pcommit Pstop Pexited Palive Pcode Pdecided Prelaunch Pgaveup Prestarts Ppre Pfstopped Prunctx Pendst Pgone Pnostop Pstatus]; constructor
+    [ rewrite E0 in Hx9; cbn in Hx9; injection Hx9 as <-; pose proof (HP _ _ _ E0 Hxo9) as HPx; p2_pre; destruct HPx as [Pcommit Pstop Pexited Palive Pcode Pdecided Prelaunch Pgaveup Prestarts Ppre Pfstopped Prunctx Pendst Pgone Pnostop Pstatus];
+      try match goal with E : pc _ = _ |- _ => rewrite E in * end; cbn in *; constructor
     | eapply P2_frame; [apply (HP j9 x9 xo9 Hx9 Hxo9)|apply ikeep_refl|apply okeep_refl|apply vrel_vkeep; vrel_tac|apply wkeep_refl] ]
   end;
-  try match goal with E : pc _ = _ |- _ => rewrite E in * end;
-  try (p2_clause; fail).
+  try match goal with E : pc _ = _ |- _ => rewrite E end;
+  try (p2_goal; fail).
 
 
 Ltac okeep_use Ok :=
@@ -647,7 +666,7 @@ Ltac comb_tac HP i E0 Hshape Hwk :=
   destruct (N.eqb_spec i j9) as [<-|Hne];
   [ rewrite ?E0 in Hx9; cbn in Hx9; injection Hx9 as <-; pose proof (HP _ _ _ E0 Exo) as HPx; p2_pre;
     destruct HPx as [Pcommit Pstop Pexited Palive Pcode Pdecided Prelaunch Pgaveup Prestarts Ppre Pfstopped Prunctx Pendst Pgone Pnostop Pstatus];
-    okeep_use Ok; constructor
+    okeep_use Ok; rewrite ?N.eqb_refl in *; try match goal with E : pc _ = _ |- _ => rewrite E in * end; cbn in *; constructor
   | eapply P2_frame; [apply (HP j9 x9 xo Hx9 Exo)|apply ikeep_refl|exact Ok|apply vrel_vkeep; vrel_tac|exact Hwk] ].
 
 Section CDefs.
@@ -845,7 +864,8 @@ Ltac comb_tac2 HP i E0 Hshape Hwk :=
   destruct (N.eqb_spec i j9) as [<-|Hne];
   [ rewrite ?E0 in Hx9; cbn in Hx9; injection Hx9 as <-; pose proof (HP _ _ _ E0 Exo) as HPx; p2_pre;
     destruct HPx as [Pcommit Pstop Pexited Palive Pcode Pdecided Prelaunch Pgaveup Prestarts Ppre Pfstopped Prunctx Pendst Pgone Pnostop Pstatus];
-    destruct Ok as (Oa & Ob & Oc & Od & Oe & Of); rewrite ?N.eqb_refl in *; cbn in Oa, Ob, Oc, Od, Oe, Of; constructor;
+    destruct Ok as (Oa & Ob & Oc & Od & Oe & Of); rewrite ?N.eqb_refl in *; cbn in Oa, Ob, Oc, Od, Oe, Of;
+    try match goal with E : pc _ = _ |- _ => rewrite E in * end; cbn in *; constructor;
     rewrite ?Oa, ?Ob, ?Oc, ?Od, ?Oe, ?Of
   | eapply P2_frame; [apply (HP j9 x9 xo Hx9 Exo)|apply ikeep_refl|exact Ok|apply vrel_vkeep; vrel_tac|exact Hwk] ].
 
@@ -860,6 +880,6 @@ Ltac gaveup_tac :=
   end.
 
 Ltac comb_fin Hwk :=
-  try match goal with E : pc _ = _ |- _ => rewrite E in * end;
-  rewrite ?N.eqb_refl in *; wk_intro Hwk; try (p2_clause; fail).
+  try match goal with E : pc _ = _ |- _ => rewrite E end;
+  wk_intro Hwk; try (p2_goal; fail).
 
